@@ -17,6 +17,23 @@ On the real code:
     granularity) and the C18-F2 window (statement granularity, between `elements[e] = …` and
     `selected_by.add`), the latter is a known finding (notes/findings/C18.json, notes/fixes/C18-*.patch).
 
+LINE granularity (harness/lib_c18.py): inside the modelled functions (XsdGlobals.build / clear / __setattr__,
+XMLSchemaBase.clear, XsdIdentity.update_elements, XsdElement.raw_decode / collect_key_fields, SchemaCache.__call__ /
+clear, schema_cached_property.__get__, functools.cached_property.__get__, text_decode / text_is_valid and the scratch
+context users) the scheduler may switch after EVERY line (p_line in {0.05, 0.2, 0.5, 1.0}), 2-3 threads, small
+schemas.  The shared containers of the widening (xsi_types, selected_by, identity.elements) are replaced by logging
+subclasses; the per-operation event log, the line labels of build() and the look/compute/store events of the cache
+front ends are replayed on the statement-level Lean models (drv_c18 ops replayL, xwreplay, creplay): every observed
+trace must be a trace of the model, every read must return the model's value, the final shared state must be the
+model's and must equal the state after the same calls made sequentially on another schema object.
+The table of ALL memoised functions of /repo/xmlschema is regenerated from the source on every run and compared
+with MODELLED_CACHES (a new cache breaks the correspondence until classified); the hypotheses of the benign-race
+theorems (value = function of the key; entries present at the publication of `_built` = post-build values; nothing
+evicts component entries) are checked on the real objects; the scratch-context theorem is tied by a
+non-interference differential (adversarial states injected between clear() and use).
+Known finding C18-F3 (notes/findings/C18.json, notes/fixes/C18-selected-by-snapshot.patch): forced window + random
+line-level schedules on F3_XSD.
+
 Tie to the Lean model (Model/Threads.lean): the observed events of the build lock (reads/writes of
 `_built`, acquire/release of `_build_lock`, with thread ids, in real order) are replayed on the model by
 drv_c18: each event must be an enabled model step and each observed read must return the model's value;
@@ -42,9 +59,11 @@ LEAN_TARGETS = ['XsVerif.Props.C18', 'drv_c18']
 LEANCHECK = ['XsVerif.Model.Threads', 'XsVerif.Model.ThreadsWiden', 'XsVerif.Model.ThreadsCache', 'XsVerif.Lemmas.Threads',
              'XsVerif.Lemmas.ThreadsWiden', 'XsVerif.Lemmas.ThreadsCache', 'XsVerif.Props.C18']
 RULE = ('a case = (schema, number of threads, per-thread call lists, schedule seed / stress round / forced '
-        'schedule); non-trivial = at least one thread switch happened strictly inside a library call of another '
-        'thread (controlled), or the build lock was contended (a thread found it held or found `_built` already '
-        'set under the lock), or a forced window was actually reached; distinct by canonical JSON')
+        'schedule / line-level schedule); non-trivial = at least one thread switch happened strictly inside a library '
+        'call of another thread (controlled), or the build lock was contended (a thread found it held or found '
+        '`_built` already set under the lock), or a forced window was actually reached, or (line-level) at least one '
+        'switch happened between two lines of a modelled function and at least one shared-state event was logged; '
+        'distinct by canonical JSON')
 TRUSTED = ['CPython GIL: a Python statement that performs ONE operation on a shared dict/set/list/attribute (in, add, '
            '__setitem__, get, pop, clear, truth value, iterator creation, one next(), tuple(set)) and the C part of an '
            'lru_cache call are atomic; inside the modelled functions the controlled scheduler switches at every line, '
